@@ -14,6 +14,50 @@ ELS = ["H", "C", "O", "N"]
 RADII = {"H": 1.51, "C": 2.47, "O": 2.03, "N": 1.93}      # half-sums never equal the distance between integer sites: no threshold ties
 
 
+IMPM = ("From Coq Require Import ZArith List Bool.\nImport ListNotations.\nRequire Import Sop.model.Lattice Sop.model.Bonds.\nLocal Open Scope Z_scope.\n"
+        "Definition strip (b : list (Z * Z * vec * Z)) : list (Z * Z * vec) := map (fun x => match x with (i, j, c, _) => (i, j, c) end) b.\n"
+        "Definition obs (L : latt) (pbc : mask) (pos : list vec) (radii : list Z) (pairs : list vec) : list Z :=\n"
+        "  let b := bonds_m L pbc pos radii in\n"
+        "  map (fun x => match x with (_, _, _, d) => d end) b ++ [-1] ++ map (fun r => norm2 (fst r)) (minimum_periodic_m L pbc false pairs) ++ [-1] ++\n"
+        "  map (fun m => Z.of_nat (length m)) (molecules_m (Z.of_nat (length pos)) (strip b)).\n")
+
+
+def model_obs_expr(L, pos, radii2):
+    """Coq expression: bond lengths^2, minimum-image lengths^2 of all pairs, molecule sizes (doubled integer geometry)"""
+    L2 = [[2 * x for x in r] for r in L]
+    P2 = [tuple(2 * x for x in p_) for p_ in pos]
+    pairs = [tuple(P2[j][k] - P2[i][k] for k in range(3)) for i in range(len(P2)) for j in range(i + 1, len(P2))]
+    return "obs %s %s %s %s %s" % (lc.coq_L(L2), lc.coq_mask((True, True, True)), lc.coq_vs(P2), fw.zlist(radii2), lc.coq_vs(pairs))
+
+
+def impl_obs(syms, pos, L, radii):
+    """the same three multisets from the real API (canonical: each block sorted)"""
+    from soprano.properties.linkage import Bonds, Molecules
+    from soprano.utils import minimum_periodic
+    a = mk(syms, pos, L)
+    bonds = Bonds.get(a, vdw_custom=radii)
+    b2 = sorted(int(round(4 * float(d) ** 2 * 1)) for (_i, _j, _c, d) in bonds)
+    P = np.array(pos, float)
+    pairs = [P[j] - P[i] for i in range(len(P)) for j in range(i + 1, len(P))]
+    mv, _c = minimum_periodic(np.array(pairs), np.array(L, float))
+    m2 = sorted(int(round(4 * float(np.dot(v, v)))) for v in mv)
+    mols = Molecules.get(a, vdw_custom=radii)
+    ms = sorted(len(m.indices) for m in mols)
+    return b2, m2, ms
+
+
+def split_obs(v):
+    out, cur = [], []
+    for x in v:
+        if x == -1:
+            out.append(sorted(cur))
+            cur = []
+        else:
+            cur.append(x)
+    out.append(sorted(cur))
+    return out
+
+
 def classify(kind, case, detail):
     return None
 
@@ -187,7 +231,7 @@ def run(ctx):
                     p = "bond count %d -> %d (x%d expected) or different bond lengths" % (len(ob["bond_lengths"]), len(ov["bond_lengths"]), mult)
                 elif sorted(set(ov["rss"])) != sorted(set(ob["rss"])) or sorted(set(ov["rss_iso"])) != sorted(set(ob["rss_iso"])):
                     p = "per-site dipolar RSS values change"
-                elif sorted(set(ov["molecule_masses"])) != sorted(set(ob["molecule_masses"])):
+                elif ob["all_finite"] and sorted(set(ov["molecule_masses"])) != sorted(set(ob["molecule_masses"])):      # a chain / network is one "molecule" per cell
                     p = "molecule masses change"
                 elif isinstance(ob["hbonds"], dict) and isinstance(ov["hbonds"], dict) and any(ov["hbonds"].get(k_, 0) != mult * v_ for k_, v_ in ob["hbonds"].items()):
                     p = "hydrogen-bond counts %s -> %s (x%d expected)" % (ob["hbonds"], ov["hbonds"], mult)
@@ -204,6 +248,57 @@ def run(ctx):
         ctx.evaluations += 1
         if not np.allclose(LatticeABC.get(a1), LatticeABC.get(a2), atol=1e-9):
             ctx.fail_input("metamorphic", dict(L=[list(r) for r in L], transform="rotate-exact", Q=Q.tolist()), "LatticeABC changes under a rigid rotation of the cell", classify)
+    # ---- the Coq models of C03/C04 on two representations of the same crystal, against the real API on both
+    okm = ctx.build_models(["model/Bonds.vo"])
+    exprs, wants, metas = [], [], []
+    UNI = [((1, 0, 0), (0, 1, 0), (0, 0, 1)), ((1, 1, 0), (0, 1, 0), (0, 0, 1)), ((1, 0, 0), (-1, 1, 0), (0, 2, 1)), ((0, 1, 0), (0, 0, 1), (1, 0, 0)),
+           ((1, 0, 1), (0, 1, 0), (0, 0, 1)), ((2, 1, 0), (1, 1, 0), (0, 0, -1)), ((1, -1, 0), (0, 1, 1), (0, 0, 1))]
+    t = 0
+    while okm and len(exprs) < (2 * (20 if quick else 300)) and t < 4000:
+        t += 1
+        L = lc.gen_lattice(rng, ["ortho", "sheared", "general"][t % 3])
+        Lm = np.array(L, float)
+        if abs(np.linalg.det(Lm)) < 60 or min(np.linalg.norm(Lm, axis=1)) < 4.0 or lc.brute_min(L, (True, True, True), (0, 0, 0), True) <= 9:
+            continue
+        n = rng.randint(2, 5)
+        pos = lc.gen_vectors(rng, L, n, far=False)
+        if len(set(pos)) < n:
+            continue
+        syms = [rng.choice(ELS) for _ in range(n)]
+        radii = {e: rng.choice([1.0, 1.5, 2.0, 2.5, 3.0]) for e in ELS}
+        U = rng.choice(UNI)
+        L_b = [[sum(U[i][k] * L[k][c_] for k in range(3)) for c_ in range(3)] for i in range(3)]
+        perm = list(range(n))
+        rng.shuffle(perm)
+        pos_b, syms_b = [], []
+        for i in perm:
+            m_ = [rng.randint(-2, 2) for _ in range(3)]
+            pos_b.append(tuple(pos[i][c_] + sum(m_[k] * L[k][c_] for k in range(3)) for c_ in range(3)))
+            syms_b.append(syms[i])
+        both = []
+        try:
+            for (L_, pos_, syms_) in ((L, pos, syms), (L_b, pos_b, syms_b)):
+                both.append((model_obs_expr(L_, pos_, [int(round(2 * radii[e])) for e in syms_]), impl_obs(syms_, pos_, L_, radii)))
+        except Exception as e:
+            ctx.fail_input("observe", dict(L=[list(r) for r in L], pos=[list(p) for p in pos], syms=syms), "raised %s: %s" % (type(e).__name__, str(e)[:160]), classify)
+            continue
+        for k_, (e_, w_) in enumerate(both):
+            exprs.append(e_)
+            wants.append(w_)
+            metas.append(dict(L=[list(r) for r in (L if k_ == 0 else L_b)], pos=[list(p) for p in (pos if k_ == 0 else pos_b)], syms=(syms if k_ == 0 else syms_b), rep="AB"[k_], U=U))
+    if okm and exprs:
+        vals = fw.coq_eval("c05", IMPM, exprs, shard=40)
+        nbad, first = 0, ""
+        for k_ in range(0, len(vals), 2):
+            ma, mb = split_obs(vals[k_]), split_obs(vals[k_ + 1])
+            ia, ib = [list(x) for x in wants[k_]], [list(x) for x in wants[k_ + 1]]
+            if not (ma == ia and mb == ib and ma == mb):
+                nbad += 1
+                first = first or "%s: model A %s impl A %s | model B %s impl B %s" % (metas[k_], ma, ia, mb, ib)
+        ctx.evaluations += len(exprs)
+        ctx.oblige("Coq models of C03/C04 (bond lengths, minimum images of all pairs, molecule sizes) on two representations (unimodular cell, per-atom lattice "
+                   "shifts, permutation) == real API on both, and equal to each other [%d pairs]" % (len(exprs) // 2), "correspondence", nbad == 0,
+                   "%d disagree; first: %s" % (nbad, first))
     if ctx.tier == "thorough":
         ctx.coqchk()
 
